@@ -109,6 +109,29 @@ def generate(rng, tier):
                 e = e_into(S, qs[0], trailing, rng.choice(LN))
             line = i1_line(S, xs, shape, flat, strat, e, dtag=dtag, xlay=rng.choice(L1), dlay=rng.choice(LN))
         cases.append({"line": line, "meta": {"oob": oob, "rej": rej}})
+    # long lanes of huge, sign-alternating finite samples (seed C13-r7m1: a NaN guard built on `data.sum()` — ndarray sums memory-contiguous
+    # arrays with eight interleaved accumulators and strided ones sequentially, so whether the partial sums overflow to +inf + -inf = NaN
+    # depends on the layout): whatever the crate does with such data, it must do the same in every layout
+    for _ in range(gen.N(tier, 30, 300)):
+        n = rng.choice([16, 17, 24, 32])
+        big = rng.choice([1.0e308, 1.7e308, 9.0e307])
+        col = [rng.uniform(-2, 2) for _ in range(n)]
+        ph = rng.randrange(8)
+        for j in range(n):
+            if j % 8 == ph:
+                col[j] = big
+            elif j % 8 == (ph + 1) % 8:
+                col[j] = -big
+        trailing = rng.choice([[], [], [2]])
+        L = gen.shape_size(trailing)
+        flat = [col[i] if l == 0 else rng.uniform(-2, 2) for i in range(n) for l in range(L)]
+        xs = gen.axis_f(rng, n, rng.choice(["unit", "uniform", "random"]))
+        qs = [rng.uniform(xs[0], xs[-1]) for _ in range(3)]
+        strat = rng.choice([("spl", False, "nak"), ("spl", False, "nat"), ("spl", True, "cla"), ("lin", False)])
+        e = e_array("F", [3], qs, qtag=rng.choice(["sta", "dyn"]), lay=rng.choice(gen.LAYS_ND)) if rng.random() < 0.7 else "build"
+        line = i1_line("F", xs, [n] + trailing, flat, strat, e, dtag=rng.choice(["sta", "dyn"]), xlay=rng.choice(gen.LAYS_1D),
+                       dlay=rng.choice(["s2", "s2", "s3", "w", "rev", "f", "perm", "neg"]))
+        cases.append({"line": line, "meta": {"oob": False, "rej": False, "any": True}})
     # failing calls on scalar-lane data with rank-2 queries in non-C layouts: the element at (0,1) and the one at (1,0) are both
     # rejected, with different values; row-major order reaches (0,1) first, column-major order would reach (1,0) first
     for _ in range(gen.N(tier, 16, 300)):
@@ -153,6 +176,8 @@ def oracle(case, res):
         return None if res.raw.startswith("berr ValueError") else f"data whose first and last rows differ must be rejected for the Periodic boundary whatever the layout, got {res.raw[:80]}"
     if case["meta"].get("oob"):
         return None if res.kind == "oob" else f"a batch with rejected elements must return OutOfBounds whatever the layout, got {res.raw[:80]}"
+    if case["meta"].get("any"):
+        return None if res.kind in ("ok", "built") else f"data of huge finite samples must be built and answered whatever the layout, got {res.raw[:80]}"
     if res.kind != "ok":
         return f"in-range query with correctly shaped arguments must be answered whatever the layout, got {res.raw[:80]}"
     if res.extra:
